@@ -31,12 +31,19 @@ def main():
             v, broken = [], 0
             for l in v_all:
                 kind = ""
+                tb = ""
                 try:
                     rp = l.split("replay=", 1)[1].split()[0]
-                    kind = json.load(open(rp)).get("kind", "")
+                    rj = json.load(open(rp))
+                    kind = rj.get("kind", "")
+                    tb = str(rj.get("traceback", ""))
                 except Exception:
                     pass
-                if kind in ("proof-broken", "check-crashed"):
+                if kind == "check-crashed" and (SCRATCH + "/fs/") in tb.split("\n")[-4:][0] + tb[-400:]:
+                    # the LIBRARY (the changed tree) raised while the harness was setting up its objects (e.g. a composite
+                    # that can no longer be built): the change was noticed, although without a tidy replay
+                    v.append(l)
+                elif kind in ("proof-broken", "check-crashed"):
                     broken += 1
                 else:
                     v.append(l)
